@@ -334,6 +334,14 @@ func (p *ProofD) ChallengeContribution(pk *gabikeys.PublicKey) ([]*big.Int, erro
 				return nil, err
 			}
 		}
+		// Range proofs are statements about hidden attributes: every carried range proof must sit at
+		// an index that has a response, otherwise it would be skipped below (or dereference nil) and
+		// be carried along unverified.
+		for index := range p.cachedRangeStructures {
+			if p.AResponses[index] == nil {
+				return nil, errors.New("range proof for an attribute that is not hidden")
+			}
+		}
 		// need stable attribute order for rangeproof contributions, so determine max undisclosed attribute
 		maxAttribute := 0
 		for k := range p.AResponses {
